@@ -31,9 +31,6 @@ from .gather_helpers import get_gir_output_shape
 from .gather_compile import compile_to_gir
 
 
-_CONST_HANDLERS_REGISTERED: bool = False
-
-
 def _as_value(value: Any) -> ir.Value:
     return cast(ir.Value, value)
 
@@ -44,13 +41,13 @@ def _as_dim_tuple(dims: tuple[Any, ...] | list[Any]) -> tuple[DimInput, ...]:
 
 
 def _ensure_constant_folders_registered(ctx: LoweringContextProtocol) -> None:
-    global _CONST_HANDLERS_REGISTERED
-    if _CONST_HANDLERS_REGISTERED:
+    # Evaluators live on the lowering context, and every conversion creates a new
+    # one: remember the registration per context, not per process.
+    if getattr(ctx, "_gather_constant_folders_registered", False):
         return
 
     register = getattr(ctx, "register_constant_evaluator", None)
     if not callable(register):
-        _CONST_HANDLERS_REGISTERED = True
         return
 
     from jax import lax
@@ -85,7 +82,10 @@ def _ensure_constant_folders_registered(ctx: LoweringContextProtocol) -> None:
         except Exception:
             continue
 
-    _CONST_HANDLERS_REGISTERED = True
+    try:
+        setattr(ctx, "_gather_constant_folders_registered", True)
+    except Exception:
+        pass
 
 
 def _is_integer_dtype(dtype: Any) -> bool:
